@@ -46,9 +46,8 @@ FloatVolOK(x, enc) ==
   \/ BClose(x, enc.lo, 1, 1000000000, BMul(BI(enc.n + 1), BI(1000000000)))
   \/ EncHas(enc, x)
 
-Judge(t, pl, X) ==
-  LET V == HalfSpaceVertices(pl, X)
-      em == t.verts
+Judge(t, pl, V) ==
+  LET em == t.verts
       rep == Rep(em)
       mv == t.mesh.verts
       mlab == TLCEval([k \in DOMAIN t.mesh.faces |-> {m \in DOMAIN pl : TriOnFacet(pl, mv, t.mesh.faces[k], m)}])
@@ -80,12 +79,14 @@ Verdict(t) ==
   IN
   IF ~DistinctDirections(pl, X) THEN "OOD repeated-direction" ELSE
   IF ~Bounded(pl, X) THEN "OOD unbounded" ELSE
+  LET V == HalfSpaceVertices(pl, X) IN
+  IF ~Separated(V, t.Q) THEN "OOD near-coincident-vertices" ELSE
   IF t.exc # "" THEN "REJECT Raised" ELSE
   IF t.mesh.exc # "" THEN "REJECT RaisedToTrimesh" ELSE
   IF t.scale.exc # "" THEN "REJECT RaisedScaled" ELSE
   IF ~ShapeOK(t) THEN "REJECT Shape" ELSE
   IF ~GridOK(t) THEN "REJECT OnGrid" ELSE
-  Judge(t, pl, X)
+  Judge(t, pl, V)
 
 Ids(b) == {i \in 1..Len(Traces) : i % NBlocks = b - 1}
 Init == blk = 0 /\ tid = 0
